@@ -64,7 +64,8 @@ def run_bounds(ctx, bounds, level_text, assumptions, engine="E1 vx + E2 rs", sta
         jobs = [(pid, p, graphs[pid]) for pid, p in progs]
         res = dict(common.pmap(_ref_job, jobs, chunksize=8))
         # fingerprint soundness: on small programs the stateless walk (every path to the end) must reach the same terminal states
-        small = [(pid, p) for pid, p in progs if graphs[pid]["status"] == "OK" and res[pid].get("paths", 0) and res[pid]["paths"] <= stateless_limit]
+        # (only programs on which implementation and reference agree: a divergence is reported as such, not as a harness error)
+        small = [(pid, p) for pid, p in progs if graphs[pid]["status"] == "OK" and res[pid].get("div") is None and res[pid].get("paths", 0) and res[pid]["paths"] <= stateless_limit]
         if small and ctx.deadline.left() > 20:
             sl = vxlib.run_vx(small, ctx.prop + name + "sl", mode="stateless", deadline=ctx.deadline.end)
             for pid, p in small:
@@ -75,7 +76,7 @@ def run_bounds(ctx, bounds, level_text, assumptions, engine="E1 vx + E2 rs", sta
                 t2 = set(c for c, en in g2["states"].values() if not en)
                 tot["stateless_crosschecked"] += 1
                 tot["stateless_paths"] += g2.get("paths", 0)
-                if t1 != t2 or g2["status"] != "OK" or g2["paths"] != res[pid]["paths"]:
+                if t1 != t2 or g2["status"] != "OK" or g2["paths"] != vxlib.count_paths(g1):
                     common.log("harness error: stateful/stateless exploration disagree on %s: %s" % (pid, compact(p)))
                     common.log("  stateful terminals %d stateless %d; paths impl %s ref %s" % (len(t1), len(t2), g2.get("paths"), res[pid]["paths"]))
                     raise SystemExit(2)
